@@ -16,7 +16,7 @@
     entries in the subtree of [q] (non-preemptible ones only when [np]). *)
 From Coq Require Import List ZArith QArith.
 From KaiV Require Import Model.Status Model.Capacity Model.CapacitySpec Proofs.Capacity Proofs.CapacitySnapshot
-  Proofs.CapacityModes.
+  Proofs.CapacityModes Proofs.CapacityNodes.
 Import ListNotations.
 Open Scope Q_scope.
 
@@ -384,3 +384,123 @@ Theorem C08_multi_device_window :
     = [Some (false, false); Some (false, false); Some (false, false); Some (false, false); Some (true, true)].
 Proof. exact multi_device_window. Qed.
 Print Assumptions C08_multi_device_window.
+
+(** * Clusters that mix GPU models: the node-level gate is a function of the candidate node
+
+    A gpu-memory request is a different share of a GPU on every GPU model:
+    ceil(100 * gpuMemory / MemoryOfEveryGpuOnNode) / 100 ([node_task_request],
+    [charge]); the job-level gate counts it as 0 GPUs, so the node-level gate
+    is all that keeps such pods within the caps.  [attempt_job] is AllocateJob
+    with the node search of common.allocateTask spelled out: per task the
+    candidate nodes in the order they are tried (an arbitrary list: the node
+    order is an oracle), each with its GPU memory and with an oracle
+    [cn_rest] for everything that comes after the capacity gate on that node
+    (the other predicates -- node affinity / selector, taints, ... -- and the
+    placement itself); the gate is evaluated for EVERY candidate with that
+    candidate's GPU memory; the task goes to the first candidate that passes
+    both and is charged its share of THAT node. *)
+
+(** An attempt that places every task is an acceptance of AllocateJob (in
+    either mode) for the job whose tasks are paired with the nodes chosen:
+    each chosen node is one of the task's candidates, the oracle accepted it,
+    and -- being the argument of [allocate_job]'s per-task gate -- it passed
+    its OWN node-level gate in the state it was charged in.  Same queues,
+    same entries. *)
+Theorem C08_attempt_is_allocate_job :
+  forall (fuel : nat) (qs : list queue) (j : ajob) (qs' : list queue) (es : list entry)
+         (wh : list (task * cnode)) (tr : list (list verdict)),
+    attempt_job fuel qs j = Done (APlaced qs' es wh tr) ->
+    Forall2 chosen_from wh (aj_tasks j) /\
+    (forall pipeline_only, allocate_job pipeline_only fuel qs (resolved j wh) = Done (Accepted qs' es)).
+Proof. exact attempt_is_allocate_job. Qed.
+Print Assumptions C08_attempt_is_allocate_job.
+
+(** One attempt, from any consistent state, for ALL queue forests, candidate
+    lists with arbitrary per-node GPU memory and oracles: a job none of whose
+    tasks asks for gpu-memory, or all of whose tasks ask for gpu-memory on a
+    single device ([acovered]; non-negative requests: [awf_job]), that is
+    placed leaves every queue whose charged amount it raises within its limit
+    and, with [np_only], its non-preemptible amount within its deserved quota:
+    the job's queue and every ancestor. *)
+Theorem C08_attempt_within_caps :
+  forall (np_only : bool) (fuel : nat) (s : state) (j : ajob) (qs : list queue) (es : list entry)
+         (wh : list (task * cnode)) (tr : list (list verdict)),
+    wf_forest (s_queues s) = true -> counters_exact s -> ledger_nonneg s = true ->
+    awf_job j -> acovered j ->
+    attempt_job fuel (s_queues s) j = Done (APlaced qs es wh tr) ->
+    raise_within np_only s {| s_queues := qs; s_ledger := es ++ s_ledger s |}.
+Proof. exact attempt_within_caps. Qed.
+Print Assumptions C08_attempt_within_caps.
+
+(** The same along every sequence of attempts (of arbitrary jobs, placed or
+    not) and releases from a consistent snapshot: a step that raises a queue's
+    charged amount leaves it within the cap, when the deciding job is covered. *)
+Theorem C08_attempts_limit_quota :
+  forall (np_only : bool) (fuel : nat) (s0 s s' : state) (pre : list astep) (x : astep),
+    wf_forest (s_queues s0) = true -> counters_exact s0 -> ledger_nonneg s0 = true ->
+    (forall j, In (AttemptJob j) (pre ++ [x]) -> awf_job j) ->
+    (forall j, x = AttemptJob j -> acovered j) ->
+    arun fuel s0 pre = Done s -> do_astep fuel s x = Done s' ->
+    raise_within np_only s s'.
+Proof. exact attempts_limit_quota. Qed.
+Print Assumptions C08_attempts_limit_quota.
+
+(** Why the candidate matters: the share of a GPU a gpu-memory request takes
+    shrinks as the GPUs grow, so a verdict obtained on a node with bigger GPUs
+    says nothing about a node with smaller ones. *)
+Theorem C08_gpu_memory_share_antitone :
+  forall (nm nm' : positive) (m : Z),
+    (0 <= m)%Z -> (nm <= nm')%positive -> frac_on_node nm' m <= frac_on_node nm m.
+Proof. exact frac_on_node_antitone. Qed.
+Print Assumptions C08_gpu_memory_share_antitone.
+
+(** [attempt_job_first_verdict_reused] ([do_astep_gen true]) is NOT the code:
+    the verdict of the first candidate evaluated is reused for the other
+    candidates of the attempt (the change of seeded/C08-4).  From a consistent
+    state that variant itself reached, a well-formed covered job is placed so
+    that its queue ends above its limit and, non-preemptible, above its
+    deserved quota; the code ([do_astep]) finds no node for it and changes
+    nothing. *)
+Theorem C08_first_node_verdict_reused_refuted :
+  forall np_only : bool,
+  exists (s s' : state) (j : ajob),
+    wf_forest (s_queues s) = true /\ counters_exact s /\ ledger_nonneg s = true /\
+    awf_job j /\ acovered j /\
+    do_astep_gen true 2 s (AttemptJob j) = Done s' /\
+    ~ raise_within np_only s s' /\
+    do_astep 2 s (AttemptJob j) = Done s.
+Proof. exact first_node_verdict_reused_refuted. Qed.
+Print Assumptions C08_first_node_verdict_reused_refuted.
+
+(** The witness spelled out: the world of seeded/C08-4's README.  queue0: GPU
+    limit 1, deserved 1.  Node big: GPUs of 500 units, node small: GPUs of
+    100.  Two one-pod jobs asking gpu-memory 60 (3/25 of a big GPU, 3/5 of a
+    small one, 0 for the job-level gate), pinned to small: candidates
+    [big; small], the oracle refuses big (node affinity) and accepts small.
+    The first job is placed on small by both (3/5).  For the second, big
+    passes its gate (3/5 + 3/25 <= 1), small does not (3/5 + 3/5 > 1): the
+    code finds no node and the state stays; with the first verdict reused the
+    pod goes to small and queue0 holds 6/5 > 1 (preemptible or not; the
+    non-preemptible 6/5 is also above the deserved quota, which is what the
+    gate reports on small when there is no limit). *)
+Theorem C08_mixed_gpu_models_nonvacuous :
+  wf_forest (s_queues rd_state) = true /\ counters_exact rd_state /\ ledger_nonneg rd_state = true /\
+  rget (node_task_request 500 (rd_task 1)) GPU == 3 # 25 /\ rget (node_task_request 100 (rd_task 1)) GPU == 3 # 5 /\
+  rget (charge 100 (rd_task 1)) GPU == 3 # 5 /\ rget (job_task_request (rd_task 1)) GPU == 0 /\
+  (forall pre,
+     rd_after false pre 1 = Done (rd_one_job pre) /\ rd_after true pre 1 = Done (rd_one_job pre) /\
+     charged false (s_queues (rd_one_job pre)) (s_ledger (rd_one_job pre)) 1 GPU == 3 # 5 /\
+     is_task_allocation_on_node_over_capacity 2 (s_queues (rd_one_job pre)) 1 pre (rd_task 2) 500 = Done Schedulable /\
+     is_task_allocation_on_node_over_capacity 2 (s_queues (rd_one_job pre)) 1 pre (rd_task 2) 100
+       = Done (OverLimit 1) /\
+     attempt_job 2 (s_queues (rd_one_job pre)) (rd_job pre 2) = Done (ANoNode 2) /\
+     rd_after false pre 2 = Done (rd_one_job pre) /\
+     rd_after true pre 2 = Done (rd_bad pre) /\
+     charged false (s_queues (rd_bad pre)) (s_ledger (rd_bad pre)) 1 GPU == 6 # 5) /\
+  charged true (s_queues (rd_bad false)) (s_ledger (rd_bad false)) 1 GPU == 6 # 5 /\
+  is_task_allocation_on_node_over_capacity 2
+    [{| q_id := 1; q_parent := 9; q_limit := rd_unl; q_deserved := rd_one;
+        q_alloc := {| r_cpu := 0; r_mem := 0; r_gpu := 3 # 5 |}; q_np := {| r_cpu := 0; r_mem := 0; r_gpu := 3 # 5 |} |}]
+    1 false (rd_task 2) 100 = Done (NonPreemptibleOverQuota 1).
+Proof. exact mixed_gpu_models_witness. Qed.
+Print Assumptions C08_mixed_gpu_models_nonvacuous.
